@@ -14,6 +14,7 @@ structure Ob where
 structure St where
   objs : List Ob := []
   tok : Nat := 1
+  fail : Nat := 0      -- `y fail n`: the n-th allocation of the next set/sets/copy fails
 
 def bytesToString (s : Str) : String := String.ofList (s.map fun b => Char.ofNat b.toNat)
 
@@ -96,13 +97,58 @@ def typedOutcome (ty : Record.PTy) (old : Val) (t : Char) (x : Val) : Option Val
     | _, _ => (none, false)
   | _ => (none, false)
 
-def defaultsRec (k : Kind) : Record.Rec := k.dump k.defaults
+/-- the observation: every listed property, and the member bits no listed property shows (the style/limit bits of an
+    axis: `format` without the log flag) -/
+def xdump (k : Kind) (o : Obj) : List (Str × Val) :=
+  k.dump o ++
+    (match k.logAt with
+     | some (_, flags, bit) => [(str ("~" ++ (k.fields.getD flags ⟨"", .u8, .int 0⟩).name), .int (clearBit (o.get flags).toInt bit))]
+     | none => [])
+
+def defaultsRec (k : Kind) : Record.Rec := xdump k k.defaults
+
+/-- `<kind>Assign(obj, from)`: the `j`-th `strdup` of the copy fails when the source holds at least `j` strings -/
+def copyFails (k : Kind) (src : Obj) (j : Nat) : Bool :=
+  decide (j ≤ (k.dups.filter fun f => match src.get f with | .str (some _) => true | _ => false).length)
 
 /-- replace object `i` -/
 def St.setObj (s : St) (i : Nat) (o : Ob) : St := { s with objs := s.objs.set i o }
 
 /-- all tokens of an object that name a block -/
 def liveToks (o : Obj) : List Nat := o.toks.filter (· ≠ 0)
+
+/-- `set` of object `ki` through a non-empty name; `sOnly`: the source answers the type 's' only (no character vector).
+    A pending allocation failure (`s.fail`) hits the one `realloc` of a string property given a non-empty text. -/
+def setNamed (s : St) (ki : Nat) (ob : Ob) (name : Str) (src : Src) (sOnly : Bool) : St × String :=
+  let k := ob.kind
+  let handler := findSet k.sets name
+  let isString : Bool := match handler with | some e => (match e.act with | .string _ => true | _ => false) | none => false
+  let nonEmpty : Bool := match src with | .text (some (_ :: _)) => true | _ => false
+  -- not modelled: allocation failures inside other handlers, 's'-only sources for other properties
+  let notModelled : Bool := handler.isSome && !isString && (s.fail > 0 || sOnly)
+  let out : Out :=
+    if s.fail = 1 ∧ isString ∧ nonEmpty then ⟨ob.m, .err .BadOperation⟩
+    else k.setProp Gen.colors ob.m name src s.tok
+  -- S (from the documentation only): a name that is not documented is refused; a documented name gives
+  -- the property a value the text denotes (no source / blank: its default); refusal without change is
+  -- allowed when the text denotes nothing for the property, the name is not spelled as documented, or an
+  -- allocation fails
+  let (hits, exact) := (docFor k).setHits name
+  let v : Option (Option Str) := match src with | .text t => some t | _ => none
+  let okAlts : List Record.Rec :=
+    hits.flatMap fun p => Record.setOutcomes Gen.colors ob.s (defaultsRec k) p.listed p.ty v
+  -- (a text of blanks only denotes no value: it may be taken as "no value" or be refused)
+  let blanks : Bool := match src with | .text (some (c :: r)) => Record.blank (some (c :: r)) | _ => false
+  let mayRefuse : Bool := !exact || okAlts.isEmpty || blanks || s.fail > 0
+  let alts := (if mayRefuse then [("refused", fmtDump ob.s)] else []) ++ okAlts.map (fun r => ("ok", fmtDump r))
+  if notModelled then ({ s with fail := 0 }, line "unsupported" (fmtDump (xdump k ob.m)) "unsup" [("*", "*")]) else
+  match out.ret with
+  | .unsup => ({ s with fail := 0 }, line "unsupported" (fmtDump (xdump k ob.m)) "unsup" [("*", "*")])
+  | ret =>
+    let dm := fmtDump (xdump k out.obj)
+    let s' := if ret.isOk then (okAlts.find? (fun r => fmtDump r == dm)).getD ob.s else ob.s
+    ({ objs := s.objs.set ki { ob with m := out.obj, s := s' }, tok := s.tok + 1, fail := 0 },
+     line (if ret.isOk then "ok" else "refused") dm (fmtRet ret) alts)
 
 def step (s : St) (w : List String) : St × String :=
   match w with
@@ -113,7 +159,7 @@ def step (s : St) (w : List String) : St × String :=
       if s.objs.length ≥ 8 then (s, "bad-op") else
       let o : Ob := { kind := k, m := k.defaults, s := defaultsRec k }
       let r := s!"ok k={s.objs.length}"
-      ({ s with objs := s.objs ++ [o] }, line r (fmtDump (k.dump o.m)) "0" [(r, fmtDump o.s)])
+      ({ s with objs := s.objs ++ [o] }, line r (fmtDump (xdump k o.m)) "0" [(r, fmtDump o.s)])
     | none => (s, "bad-op")
   | ["y", "set", ks, nm, val] =>
     match ks.toNat?, parseName nm with
@@ -134,30 +180,37 @@ def step (s : St) (w : List String) : St × String :=
           if name.isEmpty then
             -- "assign from sibling" with a source that carries no sibling: reset, or refused without change
             let out := k.setEmptyName ob.m src
-            let dm := fmtDump (k.dump out.obj)
+            let dm := fmtDump (xdump k out.obj)
             let alts := [("refused", fmtDump ob.s), ("ok", fmtDump (defaultsRec k))]
-            ((s.setObj ki { ob with m := out.obj, s := if out.ret.isOk then defaultsRec k else ob.s }),
+            ({ (s.setObj ki { ob with m := out.obj, s := if out.ret.isOk then defaultsRec k else ob.s }) with fail := 0 },
              line (if out.ret.isOk then "ok" else "refused") dm (fmtRet out.ret) alts)
           else
-          let out := k.setProp Gen.colors ob.m name src s.tok
-          -- S (from the documentation only): a name that is not documented is refused; a documented name gives
-          -- the property a value the text denotes (no source / blank: its default); refusal without change is
-          -- allowed when the text denotes nothing for the property, or the name is not spelled as documented
-          let (hits, exact) := (docFor k).setHits name
-          let v : Option (Option Str) := match src with | .text t => some t | _ => none
-          let okAlts : List Record.Rec :=
-            hits.flatMap fun p => Record.setOutcomes Gen.colors ob.s (defaultsRec k) p.listed p.ty v
-          -- (a text of blanks only denotes no value: it may be taken as "no value" or be refused)
-          let blanks : Bool := match src with | .text (some (c :: r)) => Record.blank (some (c :: r)) | _ => false
-          let mayRefuse : Bool := !exact || okAlts.isEmpty || blanks
-          let alts := (if mayRefuse then [("refused", fmtDump ob.s)] else []) ++ okAlts.map (fun r => ("ok", fmtDump r))
-          match out.ret with
-          | .unsup => (s, line "unsupported" (fmtDump (k.dump ob.m)) "unsup" [("*", "*")])
-          | ret =>
-            let dm := fmtDump (k.dump out.obj)
-            let s' := if ret.isOk then (okAlts.find? (fun r => fmtDump r == dm)).getD ob.s else ob.s
-            ((s.setObj ki { ob with m := out.obj, s := s' }).1 |> fun objs => { objs := objs, tok := s.tok + 1 },
-             line (if ret.isOk then "ok" else "refused") dm (fmtRet ret) alts)
+          setNamed s ki ob name src false
+    | _, _ => (s, "bad-op")
+  | ["y", "sets", ks, nm, val] =>
+    match ks.toNat?, parseName nm, parseHex val with
+    | some ki, some name, some b =>
+      match s.objs[ki]? with
+      | none => (s, "bad-op")
+      | some ob =>
+        if name.isEmpty ∨ b.contains 0 ∨ val.startsWith "zero:" then (s, "bad-op") else
+        setNamed s ki ob name (.text (some b)) true
+    | _, _, _ => (s, "bad-op")
+  | ["y", "fail", ns] =>
+    match ns.toNat? with
+    | some n => if n < 1 ∨ n > 4 then (s, "bad-op") else ({ s with fail := n }, "R ok | C - | I ret=0")
+    | none => (s, "bad-op")
+  | ["y", "newf", kn, fs] =>
+    match findKind kn, fs.toNat? with
+    | some k, some fl =>
+      match k.logAt with
+      | some (_, flags, _) =>
+        if kn != "axis" ∨ fl > 31 ∨ s.objs.length ≥ 8 then (s, "bad-op") else
+        let m := k.defaults.put flags (.int fl)
+        let o : Ob := { kind := k, m := m, s := xdump k m }
+        let r := s!"ok k={s.objs.length}"
+        ({ s with objs := s.objs ++ [o] }, line r (fmtDump (xdump k o.m)) "0" [(r, fmtDump o.s)])
+      | none => (s, "bad-op")
     | _, _ => (s, "bad-op")
   | ["y", "setv", ks, nm, ty, num] =>
     match ks.toNat?, parseName nm with
@@ -195,9 +248,9 @@ def step (s : St) (w : List String) : St × String :=
           let mayRefuse : Bool := !exact || okAlts.isEmpty || outs.any (fun o => !o.2)
           let alts := (if mayRefuse then [("refused", fmtDump ob.s)] else []) ++ okAlts.map (fun r => ("ok", fmtDump r))
           match out.ret with
-          | .unsup => (s, line "unsupported" (fmtDump (k.dump ob.m)) "unsup" [("*", "*")])
+          | .unsup => (s, line "unsupported" (fmtDump (xdump k ob.m)) "unsup" [("*", "*")])
           | ret =>
-            let dm := fmtDump (k.dump out.obj)
+            let dm := fmtDump (xdump k out.obj)
             let s' := if ret.isOk then (okAlts.find? (fun r => fmtDump r == dm)).getD ob.s else ob.s
             ({ objs := s.objs.set ki { ob with m := out.obj, s := s' }, tok := s.tok + 1 },
              line (if ret.isOk then "ok" else "refused") dm (fmtRet ret) alts)
@@ -210,7 +263,7 @@ def step (s : St) (w : List String) : St × String :=
       | some ob =>
         if name.isEmpty then (s, "bad-op") else
         let k := ob.kind
-        let dm := fmtDump (k.dump ob.m)
+        let dm := fmtDump (xdump k ob.m)
         -- S (documentation only): the value of the one listed property the name stands for; a listed name
         -- as documented is never refused; a name that stands for nothing, or for more than one, is refused
         let d := docFor k
@@ -243,7 +296,7 @@ def step (s : St) (w : List String) : St × String :=
       | some ob =>
         let k := ob.kind
         -- `get ""`: the kind's name (the result code, a memcmp with the defaults over padding bytes, is not compared)
-        (s, line s!"ok {k.name}" (fmtDump (k.dump ob.m)) "ok" [(s!"ok {k.name}", fmtDump ob.s)])
+        (s, line s!"ok {k.name}" (fmtDump (xdump k ob.m)) "ok" [(s!"ok {k.name}", fmtDump ob.s)])
     | none => (s, "bad-op")
   | ["y", "reset", ks] =>
     match ks.toNat? with
@@ -254,7 +307,7 @@ def step (s : St) (w : List String) : St × String :=
         let k := ob.kind
         let o' := k.reset ob.m
         let r' := Record.reset (defaultsRec k) ob.s
-        ({ s with objs := s.objs.set ki { ob with m := o', s := r' } }, line "ok" (fmtDump (k.dump o')) "0" [("ok", fmtDump r')])
+        ({ s with objs := s.objs.set ki { ob with m := o', s := r' } }, line "ok" (fmtDump (xdump k o')) "0" [("ok", fmtDump r')])
     | none => (s, "bad-op")
   | ["y", "copy", ks, js] =>
     match ks.toNat?, js.toNat? with
@@ -262,16 +315,22 @@ def step (s : St) (w : List String) : St × String :=
       match s.objs[ki]?, s.objs[ji]? with
       | some ob, some from_ =>
         let k := ob.kind
-        let out := k.copy ob.m from_.kind.name from_.m (ki == ji) s.tok
-        -- S: same kind: equal properties and own strings; another kind cannot be assigned
+        let out0 := k.copy ob.m from_.kind.name from_.m (ki == ji) s.tok
+        -- a failing strdup: the copy is refused and the target keeps its content
+        let out : Out :=
+          if s.fail > 0 ∧ out0.ret.isOk ∧ ki ≠ ji ∧ copyFails k from_.m s.fail then ⟨ob.m, .err .BadOperation⟩ else out0
+        -- S: same kind: equal properties and own strings (a failing allocation: refused without change);
+        -- another kind cannot be assigned
         let alts : List (String × String) :=
-          if from_.kind.name == k.name then [("ok owns=1", fmtDump from_.s)] else [("refused", fmtDump ob.s)]
-        let dm := fmtDump (k.dump out.obj)
+          if from_.kind.name == k.name then
+            [("ok owns=1", fmtDump from_.s)] ++ (if s.fail > 0 then [("refused", fmtDump ob.s)] else [])
+          else [("refused", fmtDump ob.s)]
+        let dm := fmtDump (xdump k out.obj)
         if out.ret.isOk then
           let shared := ki != ji ∧ (liveToks out.obj).any fun t => (liveToks from_.m).contains t
-          ({ objs := s.objs.set ki { ob with m := out.obj, s := from_.s }, tok := s.tok + out.obj.vals.length + 1 },
+          ({ objs := s.objs.set ki { ob with m := out.obj, s := from_.s }, tok := s.tok + out.obj.vals.length + 1, fail := 0 },
            line (if shared then "ok owns=0" else "ok owns=1") dm "ok" alts)
-        else (s, line "refused" dm (fmtRet out.ret) alts)
+        else ({ s with fail := 0 }, line "refused" dm (fmtRet out.ret) alts)
       | _, _ => (s, "bad-op")
     | _, _ => (s, "bad-op")
   | ["y", "dump", ks] =>
@@ -279,7 +338,7 @@ def step (s : St) (w : List String) : St × String :=
     | some ki =>
       match s.objs[ki]? with
       | none => (s, "bad-op")
-      | some ob => (s, line "ok" (fmtDump (ob.kind.dump ob.m)) "0" [("ok", fmtDump ob.s)])
+      | some ob => (s, line "ok" (fmtDump (xdump ob.kind ob.m)) "0" [("ok", fmtDump ob.s)])
     | none => (s, "bad-op")
   | ["y", "colour", val] =>
     match parseHex val with
